@@ -21,7 +21,7 @@ from ..refmodel.declarations import V2_NAMES, table as decl_table
 ENGINE = "modelsim"
 BUDGET = {
     "C02": {"quick": 4000, "thorough": 60000},
-    "C12": {"quick": 12560, "thorough": 300000},
+    "C12": {"quick": 13020, "thorough": 300000},
     "C13": {"quick": 12000, "thorough": 300000},
 }
 DECL = decl_table("csv")
